@@ -42,6 +42,98 @@ def use_repo() -> None:
     want = os.path.realpath(os.path.join(src, "sansldap"))
     if got != want:
         raise MachineryError(f"sansldap imported from {got}, expected {want}")
+    install_watchdog()
+
+
+class Hang(Exception):
+    """A public call of the library used more than CALL_CPU_LIMIT seconds of CPU time (raised inside the call by the
+    harness' watchdog).  The drivers record it like any other foreign exception, so a change that makes the library
+    loop for ever yields a verdict instead of a check that never ends."""
+
+
+CALL_CPU_LIMIT = float(os.environ.get("VERIF_CALL_CPU_LIMIT", "20"))
+_WD = {"depth": 0, "hangs": 0}
+
+
+def too_many_hangs() -> bool:
+    """Drivers stop producing further cases once several calls did not return (each costs CPU time; the verdict is
+    already certain)."""
+    return _WD["hangs"] >= 5
+
+
+def _limit_now() -> float:
+    # the first call that does not return gets the full budget; once the library has shown that it can loop, later
+    # calls get less and less (a change that loops on a whole class of inputs must not cost 20 s per input)
+    h = _WD["hangs"]
+    return CALL_CPU_LIMIT if h == 0 else min(CALL_CPU_LIMIT, 2.0) if h == 1 else min(CALL_CPU_LIMIT, 0.3)
+
+
+def _guard(fn: t.Callable[..., t.Any], label: str) -> t.Callable[..., t.Any]:
+    import functools
+    import signal
+    import threading
+
+    @functools.wraps(fn)
+    def wrapper(*a: t.Any, **kw: t.Any) -> t.Any:
+        if _WD["depth"] or threading.current_thread() is not threading.main_thread():
+            return fn(*a, **kw)
+
+        limit = _limit_now()
+
+        def on_alarm(signum: int, frame: t.Any) -> None:
+            _WD["hangs"] += 1
+            raise Hang(f"{label} used more than {limit:g} s of CPU time")
+
+        _WD["depth"] = 1
+        old = signal.signal(signal.SIGVTALRM, on_alarm)
+        signal.setitimer(signal.ITIMER_VIRTUAL, limit)
+        try:
+            return fn(*a, **kw)
+        finally:
+            signal.setitimer(signal.ITIMER_VIRTUAL, 0)
+            signal.signal(signal.SIGVTALRM, old)
+            _WD["depth"] = 0
+
+    wrapper._verif_guarded = True  # type: ignore[attr-defined]
+    return wrapper
+
+
+def install_watchdog() -> None:
+    """Wrap the public entry points of the freshly imported library with a CPU-time limit per outermost call.  The
+    wrappers change nothing else (nested calls pass straight through); VERIF_NO_WATCHDOG=1 switches them off."""
+    if os.environ.get("VERIF_NO_WATCHDOG") == "1":
+        return
+    import sansldap
+    from sansldap import _filter, _messages, _session, asn1, schema
+
+    def wrap_class(cls: t.Any, names: t.Iterable[str]) -> None:
+        for n in names:
+            f = cls.__dict__.get(n)
+            if f is None or getattr(f, "_verif_guarded", False):
+                continue
+            if isinstance(f, classmethod):
+                setattr(cls, n, classmethod(_guard(f.__func__, f"{cls.__name__}.{n}")))
+            elif isinstance(f, staticmethod):
+                setattr(cls, n, staticmethod(_guard(f.__func__, f"{cls.__name__}.{n}")))
+            elif callable(f):
+                setattr(cls, n, _guard(f, f"{cls.__name__}.{n}"))
+
+    for cls in (_session.LDAPSession, _session.LDAPClient, _session.LDAPServer):
+        wrap_class(cls, [n for n in cls.__dict__ if not n.startswith("_")])
+    wrap_class(_messages.LDAPMessage, ["pack"])
+    for cls in (asn1.ASN1Reader, asn1.ASN1Writer):
+        wrap_class(cls, [n for n in cls.__dict__ if not n.startswith("_") and not isinstance(cls.__dict__[n], property)])
+    wrap_class(_filter.LDAPFilter, ["from_string", "__str__"])
+    for cls in vars(_filter).values():
+        if isinstance(cls, type) and issubclass(cls, _filter.LDAPFilter):
+            wrap_class(cls, ["__str__", "from_string"])
+    for cls in vars(schema).values():
+        if isinstance(cls, type) and hasattr(cls, "from_string"):
+            wrap_class(cls, ["from_string", "__str__"])
+    g = _guard(_messages.unpack_ldap_message, "unpack_ldap_message")
+    for mod in (_messages, sansldap):
+        if hasattr(mod, "unpack_ldap_message"):
+            setattr(mod, "unpack_ldap_message", g)
 
 
 class MachineryError(Exception):
